@@ -130,31 +130,33 @@ type DrawVal struct {
 }
 
 type Exec struct {
-	ctx        *Ctx
-	sol        *Solver
-	prog       *ssa.Program
-	cfg        Config
-	fninfo     map[*ssa.Function]*FnInfo
-	globals    map[*ssa.Global]*Object
-	pkgInit    map[*ssa.Package]int
-	strCache   map[string]*StrV
-	stats      Stats
-	events     []Event
-	results    []PathResult
-	epochs     int
-	nobj       int
-	entered    map[string]int
-	covers     map[string]int
-	stopAll    bool
-	sizes      types.Sizes
-	typeIDs    map[string]int
-	hooks      map[string]*ssa.Function // function full name -> replacement
-	nFeas      int
-	cutKnown   map[string]int
-	initTarget *ssa.Function
-	notes      []string
-	inInit     int
-	okSamples  []OKSample
+	ctx           *Ctx
+	sol           *Solver
+	prog          *ssa.Program
+	cfg           Config
+	fninfo        map[*ssa.Function]*FnInfo
+	globals       map[*ssa.Global]*Object
+	pkgInit       map[*ssa.Package]int
+	strCache      map[string]*StrV
+	stats         Stats
+	events        []Event
+	results       []PathResult
+	epochs        int
+	nobj          int
+	entered       map[string]int
+	covers        map[string]int
+	stopAll       bool
+	sizes         types.Sizes
+	typeIDs       map[string]int
+	hooks         map[string]*ssa.Function // function full name -> replacement
+	nFeas         int
+	cutKnown      map[string]int
+	initTarget    *ssa.Function
+	notes         []string
+	inInit        int
+	lastFn        *ssa.Function
+	stoppedByPeer bool
+	okSamples     []OKSample
 }
 
 func NewExec(prog *ssa.Program, cfg Config, solverBin, logPath string) (*Exec, error) {
@@ -492,6 +494,7 @@ func (e *Exec) callFn(st *State, fn *ssa.Function, args []Value, bind []Value, c
 	}
 	e.stats.Calls++
 	e.entered[fn.String()]++
+	e.lastFn = fn
 	fi := e.info(fn)
 	fr := &Frame{fn: fn, info: fi, regs: make([]Value, fi.nregs), visits: map[int]int{}}
 	for i := range fn.Params {
@@ -859,6 +862,11 @@ func (e *Exec) runBlock(st *State, fr *Frame, blk *ssa.BasicBlock, idx int, stop
 		if e.stopAll {
 			return res
 		}
+		if e.cfg.Stop != nil && e.stats.Steps&0xff == 0 && e.cfg.Stop.Load() {
+			e.stopAll = true
+			e.stoppedByPeer = true
+			return res
+		}
 		instrs := blk.Instrs
 		var next *ssa.BasicBlock
 		for idx < len(instrs) {
@@ -1194,7 +1202,11 @@ func (e *Exec) ensureInit(p *ssa.Package) {
 						return
 					}
 					e.pkgInit[p] = 3
-					e.event("init-failed", p.Pkg.Path()+": "+u.msg)
+					where := ""
+					if e.lastFn != nil {
+						where = " [last function entered: " + e.lastFn.String() + "]"
+					}
+					e.event("init-failed", p.Pkg.Path()+": "+u.msg+where)
 					return
 				}
 				panic(r)
